@@ -27,6 +27,7 @@ import uuid
 import warnings
 import weakref
 from contextlib import AbstractContextManager, contextmanager
+from copy import deepcopy
 from gc import collect
 from getpass import getuser
 from io import BytesIO
@@ -263,6 +264,12 @@ class Workspace(AbstractContextManager):
 
         if entity_kwargs is None:
             return None
+
+        # Dictionary attributes (metadata, options) must not be shared with the copy
+        entity_kwargs = {
+            key: deepcopy(value) if isinstance(value, dict) else value
+            for key, value in entity_kwargs.items()
+        }
 
         entity_type_kwargs = get_attributes(
             entity.entity_type,
